@@ -63,6 +63,14 @@ pub trait SimHooks {
     /// A pending lock acquisition is being polled (lets the simulator notice tasks that busy-wait
     /// on a lock while its simulated clock stands still).
     fn lock_poll(&self);
+    /// Should the closure of job `token` run on a thread of its own, handing control back to the
+    /// simulator at each of its file operations (so that closures of different jobs can interleave
+    /// at I/O-call granularity, as they do on a real blocking pool)?
+    fn job_preemptible(&self, token: u64) -> bool;
+    /// The closure of a preemptible job is about to perform a file operation: let other tasks run first?
+    fn job_preempt(&self, token: u64) -> bool;
+    /// Brackets one file operation of a preemptible job (`begin` = true before, false after).
+    fn job_call(&self, token: u64, begin: bool);
 }
 
 thread_local! {
@@ -125,10 +133,14 @@ where
     R: Send + 'static,
 {
     let (token, latency) = with(|h| h.job_begin()).unwrap_or((0, None));
+    let preemptible = with(|h| h.job_preemptible(token)).unwrap_or(false);
     let handle = tokio::spawn(async move {
         match latency {
             Some(d) if !d.is_zero() => tokio::time::sleep(d).await,
             _ => tokio::task::yield_now().await,
+        }
+        if preemptible {
+            return preemptible_job(token, f).await;
         }
         with(|h| h.job_enter(token));
         let result = f();
@@ -136,6 +148,192 @@ where
         result
     });
     handle.await.expect("simulated blocking job failed")
+}
+
+/// One hook call made by a blocking closure that runs on a thread of its own.
+#[derive(Debug)]
+enum Call {
+    OnOpen { path: PathBuf, create: bool },
+    Opened { path: PathBuf, create: bool, len: u64 },
+    OnWrite { path: PathBuf, offset: u64, data: Vec<u8> },
+    OnRead { path: PathBuf, offset: u64, len: usize },
+    OnSync { path: PathBuf },
+    Synced { path: PathBuf },
+    OnTruncate { path: PathBuf },
+    Now,
+    FileCreatedAt { path: PathBuf },
+    Knob { name: String, default: usize },
+    Done,
+}
+
+#[derive(Debug)]
+enum Reply {
+    Unit,
+    Res(Result<(), i32>),
+    Write(WriteDecision),
+    Time(SystemTime),
+    OptTime(Option<SystemTime>),
+    Usize(usize),
+}
+
+/// Hooks installed on the thread of a preemptible job: every call is sent to the simulator
+/// thread, which answers when it decides that this closure may go on. Exactly one of the two
+/// threads runs at any time, so the execution stays a deterministic function of the simulator.
+#[derive(Debug)]
+struct ProxyHooks {
+    to_sim: std::sync::mpsc::Sender<Call>,
+    from_sim: std::sync::mpsc::Receiver<Reply>,
+}
+
+impl ProxyHooks {
+    fn call(&self, call: Call) -> Reply {
+        self.to_sim.send(call).expect("simulator thread is gone");
+        self.from_sim.recv().expect("simulator thread is gone")
+    }
+}
+
+impl SimHooks for ProxyHooks {
+    fn on_open(&self, path: &Path, create: bool) -> Result<(), i32> {
+        match self.call(Call::OnOpen { path: path.to_owned(), create }) {
+            Reply::Res(r) => r,
+            _ => Ok(()),
+        }
+    }
+    fn opened(&self, path: &Path, create: bool, len: u64) {
+        self.call(Call::Opened { path: path.to_owned(), create, len });
+    }
+    fn on_write(&self, path: &Path, offset: u64, data: &[u8]) -> WriteDecision {
+        match self.call(Call::OnWrite { path: path.to_owned(), offset, data: data.to_vec() }) {
+            Reply::Write(d) => d,
+            _ => WriteDecision::Proceed,
+        }
+    }
+    fn on_read(&self, path: &Path, offset: u64, len: usize) -> Result<(), i32> {
+        match self.call(Call::OnRead { path: path.to_owned(), offset, len }) {
+            Reply::Res(r) => r,
+            _ => Ok(()),
+        }
+    }
+    fn on_sync(&self, path: &Path) -> Result<(), i32> {
+        match self.call(Call::OnSync { path: path.to_owned() }) {
+            Reply::Res(r) => r,
+            _ => Ok(()),
+        }
+    }
+    fn synced(&self, path: &Path) {
+        self.call(Call::Synced { path: path.to_owned() });
+    }
+    fn on_truncate(&self, path: &Path) {
+        self.call(Call::OnTruncate { path: path.to_owned() });
+    }
+    fn job_begin(&self) -> (u64, Option<Duration>) {
+        (0, None)
+    }
+    fn job_enter(&self, _token: u64) {}
+    fn job_exit(&self, _token: u64) {}
+    fn inplace_small(&self) -> bool {
+        false
+    }
+    fn now(&self) -> SystemTime {
+        match self.call(Call::Now) {
+            Reply::Time(t) => t,
+            _ => SystemTime::now(),
+        }
+    }
+    fn file_created_at(&self, path: &Path) -> Option<SystemTime> {
+        match self.call(Call::FileCreatedAt { path: path.to_owned() }) {
+            Reply::OptTime(t) => t,
+            _ => None,
+        }
+    }
+    fn knob(&self, name: &str, default: usize) -> usize {
+        match self.call(Call::Knob { name: name.to_owned(), default }) {
+            Reply::Usize(v) => v,
+            _ => default,
+        }
+    }
+    fn buggify(&self, _site: &str) -> bool {
+        false
+    }
+    fn lock_poll(&self) {}
+    fn job_preemptible(&self, _token: u64) -> bool {
+        false
+    }
+    fn job_preempt(&self, _token: u64) -> bool {
+        false
+    }
+    fn job_call(&self, _token: u64, _begin: bool) {}
+}
+
+fn dispatch(call: Call) -> Reply {
+    match call {
+        Call::OnOpen { path, create } => Reply::Res(with(|h| h.on_open(&path, create)).unwrap_or(Ok(()))),
+        Call::Opened { path, create, len } => {
+            with(|h| h.opened(&path, create, len));
+            Reply::Unit
+        }
+        Call::OnWrite { path, offset, data } => Reply::Write(with(|h| h.on_write(&path, offset, &data)).unwrap_or(WriteDecision::Proceed)),
+        Call::OnRead { path, offset, len } => Reply::Res(with(|h| h.on_read(&path, offset, len)).unwrap_or(Ok(()))),
+        Call::OnSync { path } => Reply::Res(with(|h| h.on_sync(&path)).unwrap_or(Ok(()))),
+        Call::Synced { path } => {
+            with(|h| h.synced(&path));
+            Reply::Unit
+        }
+        Call::OnTruncate { path } => {
+            with(|h| h.on_truncate(&path));
+            Reply::Unit
+        }
+        Call::Now => Reply::Time(system_now()),
+        Call::FileCreatedAt { path } => Reply::OptTime(with(|h| h.file_created_at(&path)).flatten()),
+        Call::Knob { name, default } => Reply::Usize(knob(&name, default)),
+        Call::Done => Reply::Unit,
+    }
+}
+
+/// Runs the closure on a thread of its own. The simulator thread and the closure's thread take
+/// turns: the closure runs until its next file operation, reports it and waits; the simulator may
+/// let other tasks run before it answers.
+async fn preemptible_job<F, R>(token: u64, f: F) -> R
+where
+    F: FnOnce() -> R + Send + 'static,
+    R: Send + 'static,
+{
+    let (to_sim, from_worker) = std::sync::mpsc::channel::<Call>();
+    let (to_worker, from_sim) = std::sync::mpsc::channel::<Reply>();
+    with(|h| h.job_enter(token));
+    let thread = std::thread::spawn(move || {
+        let done = to_sim.clone();
+        let proxy: Rc<dyn SimHooks> = Rc::new(ProxyHooks { to_sim, from_sim });
+        install(proxy);
+        let result = f();
+        uninstall();
+        let _ = done.send(Call::Done);
+        result
+    });
+    loop {
+        // the closure's thread is the only one running now: wait for its next step
+        match from_worker.recv() {
+            Ok(Call::Done) | Err(_) => break,
+            Ok(call) => {
+                let state_changing = !matches!(call, Call::Now | Call::FileCreatedAt { .. } | Call::Knob { .. } | Call::Opened { .. } | Call::Synced { .. });
+                if state_changing && with(|h| h.job_preempt(token)).unwrap_or(false) {
+                    tokio::task::yield_now().await;
+                }
+                with(|h| h.job_call(token, true));
+                let reply = dispatch(call);
+                with(|h| h.job_call(token, false));
+                if to_worker.send(reply).is_err() {
+                    break;
+                }
+            }
+        }
+    }
+    let result = thread.join();
+    with(|h| h.job_exit(token));
+    match result {
+        Ok(r) => r,
+        Err(payload) => std::panic::resume_unwind(payload),
+    }
 }
 
 /// `std::fs::File` wrapper reporting every operation to the installed hooks. Its inherent
